@@ -16,6 +16,7 @@ import (
 	"os/exec"
 	"path/filepath"
 	"runtime"
+	"strconv"
 	"strings"
 	"sync"
 	"syscall"
@@ -46,6 +47,11 @@ func ChildMain(args []string) {
 	if w == nil {
 		fmt.Fprintln(os.Stderr, "no such worker", args[0])
 		os.Exit(3)
+	}
+	if sec, _ := strconv.Atoi(os.Getenv("VERIF_CHILD_CPU")); sec > 0 {
+		// CPU-time budget (not wall-clock): the kernel ends the process
+		lim := syscall.Rlimit{Cur: uint64(sec), Max: uint64(sec + 2)}
+		syscall.Setrlimit(syscall.RLIMIT_CPU, &lim)
 	}
 	data, err := os.ReadFile(args[1])
 	if err != nil {
@@ -217,6 +223,70 @@ func runOneBatch(c *Ctx, self, worker string, inputs [][]byte, lo, hi int,
 			}
 		}
 	}
+}
+
+// ConfirmAlone re-runs one input that hit the progress watchdog, alone in a
+// fresh child under a CPU-time limit.  cpuExceeded: the child used up cpuSec
+// seconds of CPU on this one input (a logical budget, independent of machine
+// load).  Otherwise the result is what the child produced (or TimedOut again
+// if the generous wall-clock watchdog fired without the CPU budget being used:
+// inconclusive).
+func ConfirmAlone(c *Ctx, worker string, input []byte, cpuSec int, wall time.Duration) (r BatchResult, cpuExceeded bool) {
+	dir, err := os.MkdirTemp(c.WorkDir, "confirm-")
+	if err != nil {
+		r.TimedOut = true
+		return
+	}
+	defer os.RemoveAll(dir)
+	var buf bytes.Buffer
+	var b [4]byte
+	binary.LittleEndian.PutUint32(b[:], uint32(len(input)))
+	buf.Write(b[:])
+	buf.Write(input)
+	batchFile, progFile, resFile := filepath.Join(dir, "batch"), filepath.Join(dir, "progress"), filepath.Join(dir, "results")
+	os.WriteFile(batchFile, buf.Bytes(), 0644)
+	os.WriteFile(progFile, make([]byte, 8), 0644)
+	self, _ := os.Executable()
+	ef, _ := os.Create(filepath.Join(dir, "stderr"))
+	cmd := exec.Command(self, "__child", worker, batchFile, progFile, resFile, "0")
+	cmd.Stderr, cmd.Stdout = ef, ef
+	cmd.Env = append(os.Environ(), "GOTRACEBACK=single", fmt.Sprintf("VERIF_CHILD_CPU=%d", cpuSec), "GOMEMLIMIT=4096MiB")
+	cmd.SysProcAttr = &syscall.SysProcAttr{Pdeathsig: syscall.SIGKILL}
+	if err := cmd.Start(); err != nil {
+		ef.Close()
+		r.TimedOut = true
+		return
+	}
+	done := make(chan error, 1)
+	go func() { done <- cmd.Wait() }()
+	select {
+	case err = <-done:
+	case <-time.After(wall):
+		cmd.Process.Kill()
+		err = <-done
+		r.TimedOut = true
+	}
+	ef.Close()
+	if ps := cmd.ProcessState; ps != nil {
+		used := ps.UserTime() + ps.SystemTime()
+		if used >= time.Duration(cpuSec)*time.Second*9/10 {
+			return BatchResult{TimedOut: true}, true
+		}
+	}
+	if r.TimedOut {
+		return
+	}
+	if err != nil {
+		r.Crashed = true
+		r.Stderr = tailFile(filepath.Join(dir, "stderr"), 6000)
+		return
+	}
+	if data, e := os.ReadFile(resFile); e == nil {
+		if tab := bytes.IndexByte(data, '\t'); tab >= 0 {
+			r.Result = append(json.RawMessage(nil), bytes.TrimRight(data[tab+1:], "\n")...)
+		}
+	}
+	return
 }
 
 func readProgress(p string) int64 {
